@@ -90,6 +90,27 @@ def mixed_query(rng, n):
     return {"meta": meta, "sql": sql, "rows": rows}
 
 
+def strhist_query(rng, n):
+    """sum(v+w) / avg(v+w): the argument is evaluated per row on THAT row's values - rows in which v and w are texts ('ab' + 'cd' is no number:
+    skipped) come first, rows with numbers follow in the same and in later batches (and in every other statement of the process that
+    spells the argument the same way)"""
+    fns = rng.sample(["sum", "avg", "sum", "avg"], 2)
+    # column names of its own: the argument's TEXT is new to the process (whatever the engine remembers per text, it learns it here)
+    tag = rng.randrange(10**6)
+    cv, cw = "pa%d" % tag, "pb%d" % tag
+    sp = rng.choice(["%s+%s", "%s + %s"])
+    items = [("%s(" + sp + ") AS a%d") % (fn, cv, cw, k) for k, fn in enumerate(fns)]
+    aggs = [{"al": "a%d" % k, "fn": fn, "arg": {"k": "add2", "c": cv, "d": cw}, "p": 0} for k, fn in enumerate(fns)]
+    rows = []
+    for i in range(n * 3):
+        if i < rng.choice([1, 2]) or (i < n and rng.random() < 0.3):
+            rows.append({"id": i + 1, cv: rng.choice(["ab", "x", "p q"]), cw: rng.choice(["cd", "y"])})
+        else:
+            rows.append({"id": i + 1, cv: rng.choice([-3, 0, 2, 7, 1]), cw: rng.choice([1, 2, 4])})
+    meta = {"fam": "batch", "carrier": "counting", "n": n, "gcols": [], "gout": [], "aggs": aggs}
+    return {"meta": meta, "sql": "SELECT %s FROM stream GROUP BY CountingWindow(%d)" % (", ".join(items), n), "rows": rows, "noretype": True, "norename": True}
+
+
 def shifted_query(rng, n):
     """variance / standard deviation are shift-invariant: large-magnitude inputs (v = offset + vs) must give the value of the small shadow inputs vs"""
     off = rng.choice([30000000, 1000000000, 1700000000000])
@@ -275,6 +296,8 @@ def run(tier):
         scen.append(mixed_query(rng, rng.choice([2, 3, 4])))
     for _ in range(40 if quick else 2000):
         scen.append(shifted_query(rng, rng.choice([3, 4, 5])))
+    for _ in range(30 if quick else 1000):
+        scen.append(strhist_query(rng, rng.choice([2, 3, 4])))
     for _ in range(40 if quick else 1500):
         scen.append(poison_query(rng, rng.choice([2, 3, 4])))
     for _ in range(80 if quick else 3000):
